@@ -14,6 +14,10 @@ ALGOS = None
 
 
 def make(family, rng, tier):
+    if family == "uncontended":
+        scn = sysgen.gen_uncontended(rng, tier)
+        scn["oracles"] = ["uncontended", "stats"]
+        return scn
     if family == "gen":
         scn = sysgen.gen_generated(rng, rng.choice(ALGOS) if ALGOS else None, tier)
     else:
@@ -27,4 +31,8 @@ def plan(tier):
 
 
 def plan(tier):  # noqa: F811
-    return [("sys", 5000 if tier == "quick" else 80000), ("gen", 500 if tier == "quick" else 8000)]
+    q = tier == "quick"
+    return [("sys", 4000 if q else 80000), ("gen", 400 if q else 8000), ("uncontended", 3000 if q else 50000)]
+
+
+WANT_PROBES = ["uncontended_checked", "empty_class", "nothing_arrived", "nothing_finished", "pipelines_completed"]
